@@ -289,8 +289,9 @@ func (bc *BoundsAnalyzer) feasibleAlternatives(
 	}
 	if pred.Symbol == symbols.MatchField.Symbol {
 		tpe := boundOfArg(args[0], varRanges, bc.nameTrie)
-		if symbols.IsStructTypeExpression(tpe) || symbols.IsTaggedUnionTypeExpression(tpe) || symbols.IsUnionTypeExpression(tpe) {
-			fieldTpe, err := symbols.StructTypeField(tpe, args[1].(ast.Constant))
+		field, fieldIsConstant := args[1].(ast.Constant)
+		if fieldIsConstant && (symbols.IsStructTypeExpression(tpe) || symbols.IsTaggedUnionTypeExpression(tpe) || symbols.IsUnionTypeExpression(tpe)) {
+			fieldTpe, err := symbols.StructTypeField(tpe, field)
 			if err != nil {
 				return nil, nil, err
 			}
